@@ -12,8 +12,14 @@ from ..common import Ctx, tlc_must_hold
 from ..tlc import MachineryError, run_tlc
 
 
-def cfg(root, k, depth, emit=False, view=True):
-    c = ["INIT Init", "NEXT Next", f"CONSTANT RootInputs <- {root}", f"CONSTANT MaxCalls = {k}", f"CONSTANT MaxDepth = {depth}",
+ALL_OPS = ("Not", "H", "Measure", "QAlloc", "QFree")
+DF_FEATURES = ("load", "nested", "order")
+
+
+def cfg(root, k, depth, emit=False, view=True, ops=ALL_OPS, features=DF_FEATURES):
+    tset = lambda xs: "{" + ", ".join(f'"{x}"' for x in xs) + "}"  # noqa: E731
+    c = ["INIT Init", "NEXT NextB", f"CONSTANT RootInputs <- {root}", f"CONSTANT MaxCalls = {k}", f"CONSTANT MaxDepth = {depth}",
+         f"CONSTANT Ops = {tset(ops)}", f"CONSTANT Features = {tset(features)}",
          "INVARIANT FinishedValid", "CHECK_DEADLOCK FALSE"]
     if view:
         c.append("VIEW View")
@@ -29,7 +35,9 @@ def op_of(name):
     table = {"Not": lambda: Not, "H": lambda: ops.Custom("H", tys.FunctionType([q], [q]), "", "verif.q", []),
              "Measure": lambda: ops.Custom("Measure", tys.FunctionType([q], [q, b]), "", "verif.q", []),
              "QAlloc": lambda: ops.Custom("QAlloc", tys.FunctionType([], [q]), "", "verif.q", []),
-             "QFree": lambda: ops.Custom("QFree", tys.FunctionType([q], []), "", "verif.q", [])}
+             "QFree": lambda: ops.Custom("QFree", tys.FunctionType([q], []), "", "verif.q", []),
+             "Some": lambda: ops.Tag(1, tys.Sum([[], [b]])), "None": lambda: ops.Tag(0, tys.Sum([[], [b]])),
+             "Cont": lambda: ops.Tag(0, tys.Sum([[b], []])), "Brk": lambda: ops.Tag(1, tys.Sum([[b], []]))}
     return table[name]()
 
 
@@ -40,6 +48,8 @@ def replay(hist, root_inputs):
     builders = {0: d}
     h = d.hugr
     handles = {}
+    conds = []
+    cfgs = []
 
     def wire(w):
         from hugr.hugr.node_port import Node
@@ -59,11 +69,57 @@ def replay(hist, root_inputs):
         elif a == "AddStateOrder":
             from hugr.hugr.node_port import Node
             b.add_state_order(Node(ev["x"]), Node(ev["y"]))
+        elif a == "AddConditional":
+            cb = b.add_conditional(*[wire(w) for w in ev["args"]])
+            builders[cb.parent_node.idx] = cb
+            conds.append(cb)
+        elif a == "DefineFunction":
+            fb = b.define_function("f", [W.build_type(t) for t in ev["ins"]], [W.build_type(t) for t in ev["outs"]] if ev["declared"] else None)
+            builders[fb.parent_node.idx] = fb
+        elif a == "Call":
+            from hugr.hugr.node_port import Node
+            n = b.call(Node(ev["f"]), *[wire(w) for w in ev["args"]])
+            handles[n.idx] = n
+        elif a == "LoadFunction":
+            from hugr.hugr.node_port import Node
+            b.load_function(Node(ev["f"]))           # (C16 does not list load_function: its handle has no known count)
+        elif a == "LoadUnit":
+            n = b.load(val.Unit)
+            handles[n.idx] = n
+        elif a == "AddCfg":
+            cb = b.add_cfg(*[wire(w) for w in ev["args"]])
+            builders[cb.parent_node.idx] = cb
+            cfgs.append(cb)
+        elif a == "AddEntry":
+            blk = b.add_entry()
+            builders[blk.parent_node.idx] = blk
+        elif a == "AddBlock":
+            blk = b.add_block(*[W.build_type(t) for t in ev["row"]])
+            builders[blk.parent_node.idx] = blk
+        elif a == "AddSuccessor":
+            from hugr.hugr.node_port import Node
+            blk = b.add_successor(Node(ev["b"]).out(ev["i"]))
+            builders[blk.parent_node.idx] = blk
+        elif a == "Branch":
+            from hugr.hugr.node_port import Node
+            b.branch(Node(ev["b"]).out(ev["i"]), Node(ev["dst"]))
+        elif a == "BranchExit":
+            from hugr.hugr.node_port import Node
+            b.branch_exit(Node(ev["b"]).out(ev["i"]))
+        elif a == "AddTailLoop":
+            nb = b.add_tail_loop([wire(w) for w in ev["just"]], [wire(w) for w in ev["rest"]])
+            builders[nb.parent_node.idx] = nb
+        elif a == "AddCase":
+            case = b.add_case(ev["i"])
+            builders[case.parent_node.idx] = case
         elif a == "SetOutputs":
             b.set_outputs(*[wire(w) for w in ev["args"]])
-            handles[b.parent_node.idx] = b.parent_node
+            if type(b).__name__ not in ("Case", "Function", "Block"):      # C16 names dataflow graph, CFG, conditional and tail-loop builders
+                handles[b.parent_node.idx] = b.parent_node
         else:
             raise MachineryError(f"unknown builder action {a}")
+    for cb in conds + cfgs:
+        handles[cb.parent_node.idx] = cb.parent_node
     return h, handles
 
 
@@ -75,14 +131,22 @@ def norm_node(n):
     return n
 
 
-def run(ctx: Ctx, wd) -> None:
+def run(ctx: Ctx, wd, handles_only: bool = False) -> None:
+    """handles_only (C16 b): only the S->C leg, only the handle counts are judged (documents are C01's business)."""
     quick = ctx.tier == "quick"
-    # ---- leg M
-    for root, k, depth in ([("RootBQ", 4, 2)] if quick else [("RootBQ", 4, 3), ("RootB", 5, 2)]):
-        res = run_tlc("MC_HugrBuilder", cfg(root, k, depth), wd, workers=16, heap="10g", want_lines=False, timeout=3000)
-        tlc_must_hold(ctx, f"M HugrBuilder {root} K={k} depth<={depth}: Finished => Valid(Doc)", res, "HugrBuilder model")
+    DF, CO, LO, FU = DF_FEATURES, ("cond",), ("loop",), ("func",)
+    # ---- leg M: (root, K, depth, ops, features)
+    m_cfgs = ([("RootBQ", 4, 2, ALL_OPS, DF), ("RootBQ", 6, 2, ("Not", "Some"), CO), ("RootBQ", 8, 2, ("H",), CO),
+               ("RootBQ", 4, 2, ("Some", "None", "Cont", "Brk"), LO), ("RootBQ", 5, 2, ("Not", "H"), FU)] if quick else
+              [("RootBQ", 5, 2, ALL_OPS, DF), ("RootB", 5, 2, ALL_OPS, DF), ("RootBQ", 6, 3, ("Not",), ("load", "nested")),
+               ("RootBQ", 7, 2, ("Not", "Some"), CO), ("RootBQ", 8, 2, ("H", "Measure"), CO), ("RootBQ", 7, 3, ("H",), CO + ("nested",)),
+               ("RootBQ", 5, 2, ("Some", "None"), LO), ("RootBQ", 5, 2, ("Cont", "Brk", "H"), LO), ("RootBQ", 6, 3, (), LO + ("nested",)),
+               ("RootBQ", 8, 3, (), CO + LO), ("RootBQ", 6, 2, ("Not",), FU), ("RootBQ", 6, 3, ("H",), FU + ("nested",)), ("RootBQ", 7, 3, (), FU + CO)])
+    for root, k, depth, ops_, fe in ([] if handles_only else m_cfgs):
+        res = run_tlc("MC_HugrBuilder", cfg(root, k, depth, ops=ops_, features=fe), wd, workers=16, heap="10g", want_lines=False, timeout=5000)
+        tlc_must_hold(ctx, f"M HugrBuilder {root} K={k} depth<={depth} ops={','.join(ops_)} features={','.join(fe)}: Finished => Valid(Doc)", res,
+                      "HugrBuilder model")
     # ---- S->C: every distinct finished state
-    root, k, depth = ("RootBQ", 3, 2) if quick else ("RootBQ", 4, 2)
     root_inputs = [{"t": "Sum", "s": "Unit", "size": 2}, {"t": "Q"}]
     n = [0]
     feats = Counter()
@@ -98,26 +162,44 @@ def run(ctx: Ctx, wd) -> None:
         if "AddNested" in acts:
             feats["nested"] += 1
             ctx.nontriv(hist)
-        if any(e["a"] in ("AddOp", "SetOutputs", "AddNested") and any(True for w in e["args"]) for e in hist):
+        if "AddConditional" in acts:
+            feats["cond"] += 1
+            ctx.nontriv(hist)
+            if any(e["a"] == "SetOutputs" and e["args"] and nodes_parent_is_case(ln["doc"], e["ctx"]) for e in hist):
+                feats["cond-with-outputs"] += 1
+        if "DefineFunction" in acts:
+            feats["func"] += 1
+            if "Call" in acts:
+                feats["call"] += 1
+                ctx.nontriv(hist)
+            if any(e["a"] == "Call" and e["ctx"] == e["f"] for e in hist):
+                feats["recursive-call"] += 1
+        if "AddTailLoop" in acts:
+            feats["loop"] += 1
+            ctx.nontriv(hist)
+            if any(e["a"] == "AddTailLoop" and e["just"] for e in hist):
+                feats["loop-just-inputs"] += 1
+        if any(e["a"] in ("AddOp", "SetOutputs", "AddNested", "AddConditional") and any(True for w in e["args"]) for e in hist):
             feats["wired"] += 1
         try:
             h, handles = replay(hist, root_inputs)
             doc = json.loads(h.to_json())
         except Exception as e:  # noqa: BLE001
-            ctx.violation(dict(sig, clauses=f"exception {type(e).__name__}"), {"hist": hist}, "the builders accept the program", repr(e)[:300],
-                          clause="HugrBuilder!Next", leg="S2C")
+            if not handles_only:
+                ctx.violation(dict(sig, clauses=f"exception {type(e).__name__}"), {"hist": hist}, "the builders accept the program", repr(e)[:300],
+                              clause="HugrBuilder!Next", leg="S2C")
             return
         exp = ln["doc"]
         en = [norm_node(x) for x in exp["nodes"]]
         on = [norm_node(x) for x in doc["nodes"]]
-        if en != on:
+        if en != on and not handles_only:
             k2 = next((i for i, (a, b) in enumerate(zip(en, on)) if a != b), min(len(en), len(on)))
             ctx.violation(dict(sig, clauses="nodes"), {"hist": hist}, en[k2] if k2 < len(en) else None, on[k2] if k2 < len(on) else None,
                           clause=f"HugrBuilder!Doc.nodes[{k2}]", leg="S2C")
             return
         ee = Counter(json.dumps(e) for e in exp["edges"])
         oe = Counter(json.dumps(e) for e in doc["edges"])
-        if ee != oe:
+        if ee != oe and not handles_only:
             ctx.violation(dict(sig, clauses="edges"), {"hist": hist}, sorted((ee - oe).elements())[:4], sorted((oe - ee).elements())[:4],
                           clause="HugrBuilder!Doc.edges", leg="S2C")
             return
@@ -132,11 +214,49 @@ def run(ctx: Ctx, wd) -> None:
             if idx in counts and got != counts[idx]:
                 ctx.violation(dict(sig, clauses="handle count"), {"hist": hist, "node": idx}, counts[idx], got, clause="HugrBuilder!HandleCounts", leg="S2C")
                 return
-        if len(hist) >= 3 and "AddNested" in acts:
+        if len(hist) >= 3 and ("AddNested" in acts or "AddConditional" in acts or "AddTailLoop" in acts) and n[0] % 7 == 0:
             ctx.sample({"builder_program": hist, "expected_edges": exp["edges"]})
-    res = run_tlc("MC_HugrBuilder", cfg(root, k, depth, emit=True), wd, workers=1, heap="8g", line_sink=sink, timeout=3000)
-    tlc_must_hold(ctx, f"S2C HugrBuilder finished states {root} K={k}", res, "HugrBuilder model (emission)")
+    s_cfgs = ([("RootBQ", 4, 2, ALL_OPS, DF), ("RootBQ", 7, 2, ("H",), CO), ("RootBQ", 7, 2, ("Some",), CO), ("RootBQ", 4, 2, ("Some", "Cont"), LO), ("RootBQ", 5, 2, ("Not", "H"), FU)] if quick else
+              [("RootBQ", 4, 2, ALL_OPS, DF), ("RootBQ", 7, 2, ("Not",), CO), ("RootBQ", 7, 2, ("Some",), CO), ("RootBQ", 8, 2, ("H",), CO), ("RootBQ", 7, 3, ("H",), CO + ("nested",)),
+               ("RootBQ", 4, 2, ("Some", "None", "Cont", "Brk", "H"), LO), ("RootBQ", 6, 3, (), LO + ("nested",)), ("RootBQ", 8, 3, (), CO + LO), ("RootBQ", 6, 2, ("Not",), FU), ("RootBQ", 7, 3, (), FU + CO)])
+    if handles_only:
+        s_cfgs = ([("RootBQ", 3, 2, ALL_OPS, DF), ("RootBQ", 7, 2, ("H",), CO), ("RootBQ", 4, 2, ("Some",), LO)] if quick else
+                  [("RootBQ", 4, 2, ALL_OPS, DF), ("RootBQ", 7, 2, ("Some",), CO), ("RootBQ", 8, 2, ("H",), CO), ("RootBQ", 4, 2, ("Some", "None", "Cont", "Brk"), LO)])
+    for root, k, depth, ops_, fe in s_cfgs:
+        res = run_tlc("MC_HugrBuilder", cfg(root, k, depth, emit=True, ops=ops_, features=fe), wd, workers=1, heap="8g", line_sink=sink, timeout=5000)
+        tlc_must_hold(ctx, f"S2C HugrBuilder finished states {root} K={k} ops={','.join(ops_)} features={','.join(fe)}", res, "HugrBuilder model (emission)")
     ctx.note("builder_model_finished_states_replayed", n[0])
     ctx.note("builder_model_features", dict(feats))
-    if n[0] < 50 or not feats["nested"]:
+    need = ("nested", "cond", "loop") if handles_only else ("nested", "cond", "cond-with-outputs", "loop", "loop-just-inputs", "call", "recursive-call")
+    if n[0] < 50 or not all(feats[f] for f in need):
         raise MachineryError(f"builder model: only {n[0]} finished states, features {dict(feats)}")
+
+
+def nodes_parent_is_case(doc, idx):
+    return doc["nodes"][idx].get("op") == "Case"
+
+
+def replay_case(body) -> bool:
+    """re-executes a builder-model case ({"hist": [...]}) on the real builders and prints what they produced"""
+    case = body.get("case", {})
+    if not (isinstance(case, dict) and "hist" in case and body.get("sig", {}).get("source") == "builder-model"):
+        return False
+    root_inputs = [{"t": "Sum", "s": "Unit", "size": 2}, {"t": "Q"}]
+    for ev in case["hist"]:
+        print(ev)
+    try:
+        h, handles = replay(case["hist"], root_inputs)
+    except Exception as e:  # noqa: BLE001
+        print("IMPLEMENTATION RAISED", repr(e))
+        return True
+    doc = json.loads(h.to_json())
+    for i, n in enumerate(doc["nodes"]):
+        print(i, json.dumps(n)[:300])
+    print("edges", doc["edges"])
+    for idx, node in sorted(handles.items()):
+        try:
+            print("handle", idx, "outputs", len(list(node)))
+        except ValueError:
+            print("handle", idx, "unknown count")
+    print("clause:", body.get("clause"), "expected:", json.dumps(body.get("expected"))[:600], "observed:", json.dumps(body.get("observed"))[:600])
+    return True
